@@ -429,7 +429,19 @@ def inter_case(job, t0):
                 continue
             sa = ca.index(loopa[x["a"]["edge"] - 1])
             sb = cb.index(loopb[x["b"]["edge"] - 1])
-            out.append((sa, sb, F(x["a"]["par"][0], x["a"]["par"][1]), F(x["b"]["par"][0], x["b"]["par"][1])))
+
+            def par(loop, hit):
+                # parameter of the crossing on its edge in the grid-line coordinates of THIS
+                # realisation (the specification's `par` is the same ratio in the coordinates XS, YS)
+                pa, pb, pt = loop[hit["edge"] - 1], loop[hit["edge"] % len(loop)], tuple(x["pt"])
+                A_, B_, P_ = real.coord(*pa), real.coord(*pb), real.coord(*pt)
+                k_ = 0 if pa[1] == pb[1] else 1
+                u_ = (P_[k_] - A_[k_]) / (B_[k_] - A_[k_])
+                if real.xs == [F(v) for v in st.u.XS] and real.ys == [F(v) for v in st.u.YS]:
+                    assert u_ == F(hit["par"][0], hit["par"][1]), (u_, hit)
+                return u_
+
+            out.append((sa, sb, par(loopa, x["a"]), par(loopb, x["b"])))
         return sorted(out)
 
     def close(p, q):
@@ -1030,8 +1042,8 @@ def prims_case(job):
                     if not ((cx, cy) in S) or ((float(cx) + big, float(cy) + big) in S):
                         fails.append(Failure("C16", "centre not contained or far point contained", **what))
         # every number of sides: exactly nsides vertices on the circle, no zero-length side
-        if idxs and idxs[0] % 7 == 0:
-            for n in range(3, 260, 1 if idxs[0] == 0 else 3):
+        if opts.get("sweep"):
+            for n in range(3, 400):
                 S = P.regular_polygon(n, 2.5, (1, -1))
                 vs = [sg.ctrlpoints[0] for sg in S.jordans[0].segments]
                 if len(vs) != n:
